@@ -75,6 +75,13 @@ func (c zvC21Case) bytes() []byte {
 		b := zvC21Seeds[c.Seed]()
 		b[c.Offset] = c.Value
 		return b
+	case "mpreach":
+		// MP_REACH_NLRI: AFI (Type: 1|2), SAFI 1, next hop length ALen, followed by Offset octets (value 1,2,3,...; no reserved octet / NLRI beyond them)
+		v := []byte{0, c.Type, 1, byte(c.ALen)}
+		for i := 0; i < c.Offset; i++ {
+			v = append(v, byte(i+1))
+		}
+		return zvwUpdate(nil, []zvwAttr{zvwOrigin(0), zvwASPath(true, zvRemoteAS), {0x80 | c.AFlags, 14, v}}, nil)
 	case "attr":
 		v := make([]byte, c.ALen)
 		for i := range v {
@@ -248,7 +255,7 @@ func zvC21Check(r *vh.Run, c zvC21Case) {
 	} else {
 		r.Count("wellformed_header_cases", 1)
 	}
-	if c.Kind == "attr" {
+	if c.Kind == "attr" || c.Kind == "mpreach" {
 		r.Count("attribute_sweep_cases", 1)
 		if res.StateAfter == stateNameEstablished {
 			r.Count("attribute_sweep_session_stays_up", 1)
@@ -303,7 +310,11 @@ func zvC21Cases(thorough bool) []zvC21Case {
 		for _, seed := range []string{"open", "update", "update6", "notification", "keepalive"} {
 			b := zvC21Seeds[seed]()
 			for off := 16; off < len(b); off++ {
-				for _, v := range []byte{0, 1, 0x7f, 0x80, 0xff} {
+				vals := []byte{0, 1, 0x7f, 0x80, 0xff}
+				if seed == "update" || seed == "update6" {
+					vals = append(vals, 4, 0x10, 0x11, 0x20, 0x21) // lengths the UPDATE grammar treats specially (address sizes, one and two next hops)
+				}
+				for _, v := range vals {
 					if b[off] == v {
 						continue
 					}
@@ -337,6 +348,20 @@ func zvC21Cases(thorough bool) []zvC21Case {
 			}
 		}
 	}
+	// MP_REACH_NLRI with every combination of announced next hop length and octets really present
+	nhls := []int{0, 1, 3, 4, 5, 12, 15, 16, 17, 24, 31, 32, 33, 48, 64, 255}
+	for _, afi := range []byte{1, 2} {
+		for _, nhl := range nhls {
+			for avail := 0; avail <= 66; avail++ {
+				if !thorough && avail > 40 && avail != 64 && avail != 65 {
+					continue
+				}
+				for _, fl := range []byte{0, 0x10} {
+					cs = append(cs, zvC21Case{State: "established", Kind: "mpreach", Type: afi, ALen: nhl, Offset: avail, AFlags: fl})
+				}
+			}
+		}
+	}
 	return cs
 }
 
@@ -344,7 +369,7 @@ func TestVerifC21(t *testing.T) {
 	r := vh.Start(t, "C21")
 	defer r.Finish()
 	r.Rule("byte streams delivered to a session in OpenSent / OpenConfirm / Established next to a second established session: header length field over the tier's set (0..40, 4090..4100, boundary values; thorough: 0..299, 3901..4399, every 257th, 65201..65535) x type {0,1,2,3,4,5,255}; " +
-		"marker corruptions at every offset; every offset x {0,1,0x7f,0x80,0xff} of five valid seed messages, also split across two reads; a valid UPDATE with one more path attribute of every type code 0..255 x flags {0x40,0x80,0xc0,0x90; thorough 8 combinations} x lengths {0,1,3,4,7,8; thorough 14 values, IPv4 and IPv6 seed}; non-trivial = cases whose header is malformed by RFC 4271 6.1 (NOTIFICATION code/subcode checked)")
+		"marker corruptions at every offset; every offset x {0,1,0x7f,0x80,0xff} of five valid seed messages, also split across two reads; a valid UPDATE with one more path attribute of every type code 0..255 x flags {0x40,0x80,0xc0,0x90; thorough 8 combinations} x lengths {0,1,3,4,7,8; thorough 14 values, IPv4 and IPv6 seed}; MP_REACH_NLRI with AFI {1,2} x announced next hop length (16 values) x octets present 0..40,64,65 (thorough 0..66); non-trivial = cases whose header is malformed by RFC 4271 6.1 (NOTIFICATION code/subcode checked)")
 	r.Require("malformed_header_cases", "wellformed_header_cases", "attribute_sweep_session_stays_up", "attribute_sweep_session_reset")
 	if r.IsReplay() {
 		var c zvC21Case
